@@ -10,13 +10,15 @@ class C01(WorldSpec):
     monitor = "violates_c01"
     n_quick = 150
     n_thorough = 150 * 25
-    obligations = ['C01_gate_and_issuance', 'C01_instance_invariant', 'C01_nonvacuous']
+    obligations = ['C01_step', 'C01_invariant_fresh', 'C01_invariant_step', 'C01_invariant_time', 'C01_endpoints_stable', 'C01_nonvacuous', 'C01_forward_meets_C02_spec', 'C01_forward_token_meets_C02_spec', 'C01_valid_session_meets_C02_spec', 'C01_gate_forwarded_carries', 'C02_bridge', 'C02_accept_at_spec']
 
     @property
     def coq_targets(self):
         t = ["theories/Spec/WorldSpec.vo"]
         if os.path.exists(os.path.join(L.COQ, "theories/Properties/C01.v")):
             t.append("theories/Properties/C01.vo")
+        if os.path.exists(os.path.join(L.COQ, "theories/Properties/C01_C02.v")):
+            t.append("theories/Properties/C01_C02.vo")
         return t
 
 
